@@ -87,11 +87,15 @@ impl<'a> G<'a> {
         let bid = self.r.chance(0.5);
         let vol = self.vol(bid);
         let trader = self.r.below(50) as u32;
-        let price = match self.r.below(10) {
+        let mut price = match self.r.below(10) {
             0 | 1 => None,
             2..=4 => Some(self.price(bid, false)),
             _ => Some(self.price(bid, true)),
         };
+        // the bottom of the price domain is an ordinary in-range argument: a buy limit at price 0 rests below everything
+        if bid && self.r.chance(0.03) {
+            price = Some(0);
+        }
         (bid, vol, trader, price)
     }
     fn faulty_place(&mut self, o: &str) {
@@ -128,6 +132,8 @@ impl<'a> G<'a> {
                 Some(self.price(cur.bid, passive))
             }
         };
+        // ... and so is a re-price of a buy order to 0
+        let price = if cur.bid && self.r.chance(0.05) { Some(0) } else { price };
         let vol = match self.r.below(6) {
             0 | 1 => None,
             2 | 3 => Some(if cur.vol > 1 { self.r.range(1, cur.vol as u64 - 1) as u32 } else { 1 }),
